@@ -1879,6 +1879,13 @@ fn eval_live(d: &[usize], rt: &tokio::runtime::Runtime, rep: &mut Report, verbos
     rep.evaluations += 1;
     let out = match report::catch(|| rt.block_on(live_session(d))) {
         Ok(Ok(o)) => o,
+        Ok(Err(e)) if e.starts_with("session got role") => {
+            // the session's role decides which propagation rules apply to it: a neighbour
+            // configured as iBGP / RR client / RS client / eBGP that is given another role is
+            // treated by the wrong rules (split horizon, next hop, CLUSTER_LIST check, ...)
+            rep.violation(Violation { sig: format!("C09/session-role-derivation/{}{}", ROLE_NAMES[role_idx(role)], if confed { "/confed" } else { "" }), what: format!("{e} (neighbour configuration {}{})", ROLE_NAMES[role_idx(role)], if confed { ", inside a confederation whose member list names the local AS" } else { "" }), case });
+            return;
+        }
         Ok(Err(e)) => {
             rep.machinery_error = Some(format!("live session {case}: {e}"));
             return;
